@@ -188,7 +188,7 @@ def rule_grammar(ctx):
             def visit_Name(self, node):
                 if node.id in defs and len(defs[node.id]) == 1 and node.id not in ("line", "section_name"):
                     v = defs[node.id][0]
-                    if isinstance(v, ast.Call):
+                    if isinstance(v, (ast.Call, ast.Compare)):
                         return v
                 return node
         return ast.unparse(T().visit(e))
@@ -284,7 +284,7 @@ def rule_select(ctx):
 
     class T(ast.NodeTransformer):
         def visit_Name(self, node):
-            if node.id in defs and len(defs[node.id]) == 1 and node.id not in ("line", "section_name") and isinstance(defs[node.id][0], ast.Call):
+            if node.id in defs and len(defs[node.id]) == 1 and node.id not in ("line", "section_name") and isinstance(defs[node.id][0], (ast.Call, ast.Compare)):
                 return defs[node.id][0]
             return node
     got = {}
@@ -337,11 +337,27 @@ def rule_strip(ctx):
     for l in loops:
         if any(isinstance(c, ast.Call) and ast.unparse(c.func) in ("re.match",) for c in ast.walk(l)):
             mloop = l
+    lazy_first = None
     if mloop is None:
+        # m = next((a for a in (re.match(c, line) for c in patterns) if a is not None), None): first hit wins by construction
+        gens = [g for g in ast.walk(fi.node) if isinstance(g, (ast.GeneratorExp, ast.ListComp)) and len(g.generators) == 1
+                and isinstance(g.elt, ast.Call) and ast.unparse(g.elt.func) == "re.match"]
+        nexts = [c for c in ast.walk(fi.node) if isinstance(c, ast.Call) and isinstance(c.func, ast.Name) and c.func.id == "next"]
+        if gens and nexts:
+            g = gens[0]
+            call = g.elt
+            tgt = g.generators[0].target
+            if not (len(call.args) == 2 and not call.keywords and isinstance(tgt, ast.Name) and ast.unparse(call.args[0]) == tgt.id
+                    and ast.unparse(call.args[1]) == fi.params()[0]):
+                problems.append("re.match is not applied as re.match(<pattern>, <line>)")
+            if not isinstance(g.generators[0].iter, ast.Name) or g.generators[0].ifs:
+                problems.append("patterns are tried in the order `%s`" % unparse(g.generators[0].iter))
+            lazy_first = g
+    if mloop is None and lazy_first is None:
         calls = [ast.unparse(c.func) for c in walk_shallow(fi.node) if isinstance(c, ast.Call) and ast.unparse(c.func).startswith("re.")]
         problems.append("patterns are not applied with re.match in a loop (found %s): re.search/fullmatch change which "
                         "lines parse and where the name starts" % calls)
-    else:
+    elif mloop is not None:
         call = [c for c in ast.walk(mloop) if isinstance(c, ast.Call) and ast.unparse(c.func) == "re.match"][0]
         if not (len(call.args) >= 2 and isinstance(mloop.target, ast.Name) and ast.unparse(call.args[0]) == mloop.target.id
                 and ast.unparse(call.args[1]) == fi.params()[0]):
@@ -362,7 +378,15 @@ def rule_strip(ctx):
         problems.append("no loop over the matched groups")
     else:
         kv = gl.target
-        stores = [s for s in ast.walk(gl) if isinstance(s, ast.Assign) and isinstance(s.targets[0], ast.Subscript)]
+        valname = kv.elts[1].id if isinstance(kv, ast.Tuple) and len(kv.elts) == 2 and isinstance(kv.elts[1], ast.Name) else None
+        stores = [s for s in ast.walk(gl) if isinstance(s, ast.Assign) and (isinstance(s.targets[0], ast.Subscript) or (
+            isinstance(s.targets[0], ast.Name) and s.targets[0].id == valname))]
+        # when the value variable is rewritten in place, it must be what is finally stored
+        if any(isinstance(s.targets[0], ast.Name) for s in stores):
+            final = [s for s in stores if isinstance(s.targets[0], ast.Subscript)]
+            if not final or not all(isinstance(s.value, ast.Name) and s.value.id == valname for s in final):
+                problems.append("the processed group value is not what is stored")
+            stores = [s for s in stores if isinstance(s.targets[0], ast.Name)]
         strip_ok = False
         unit_ok = False
         for s in stores:
